@@ -28,6 +28,7 @@ import (
 	"github.com/ucan-wg/go-ucan/token/invocation"
 	"github.com/ucan-wg/go-ucan/verifshim/sched"
 
+	"verifharness/c20ops"
 	"verifharness/engine"
 	"verifharness/fixtures"
 	"verifharness/refmodel"
@@ -1133,4 +1134,41 @@ func c18ConcSub() *engine.Sub {
 			}
 			return r
 		}, func(string, int) []int { return nil }, 1, 2)
+}
+
+// ---- C20: read-only operations on shared tokens under the controlled scheduler (E6) ----
+
+func c20ConcSub() *engine.Sub {
+	return engine.ConcurrentSubSweep("concurrent-read-only-operations", "every read-only operation of C20's alphabet on ONE shared set of tokens (invocation + 2-link chain, decoded, keys a b c), plus authorization checks and Policy.Match against a shared delegation whose policy is nested 40 levels deep (two checks in flight are 80 levels deep together), from two logical threads",
+		func(tier string) []engine.Call {
+			var cs []engine.Call
+			// a deep policy: not(not(...(== .x 1))) with an even number of nots
+			cons := policy.Equal(".x", literal.Int(1))
+			for i := 0; i < 40; i++ {
+				cons = policy.Not(cons)
+			}
+			deep := mustDlg(0, 1, 0, "/a", policy.MustConstruct(cons))
+			ld := &sliceLoader{cids: []cid.Cid{cidPool[60]}, toks: []*delegation.Token{deep}}
+			for _, x := range []int{1, 2} {
+				inv, err := invocation.New(prin(1), prin(0), "/a", []cid.Cid{cidPool[60]}, invocation.WithNonce(fixedNonce), invocation.WithoutInvokedAt(), invocation.WithArgument("x", x))
+				if err != nil {
+					panic(err)
+				}
+				cs = append(cs, engine.Call{Name: fmt.Sprintf("ExecutionAllowed(x=%d) against the shared 40-deep delegation", x), Run: func() string { return errLabel(inv.ExecutionAllowed(ld)) }},
+					engine.Call{Name: fmt.Sprintf("ExecutionAllowedWithArgsHook(x=%d) against the shared 40-deep delegation", x), Run: func() string { return errLabel(inv.ExecutionAllowedWithArgsHook(ld, identityHook)) }})
+			}
+			data := nMap(kv{"x", nInt(1)})
+			cs = append(cs, engine.Call{Name: "Match of the shared 40-deep policy", Run: func() string {
+				ok, _ := deep.Policy().Match(data)
+				pm, _ := deep.Policy().PartialMatch(data)
+				return fmt.Sprint(ok, pm)
+			}})
+			// (the deep calls come first: they are the ones with many scheduling points, if there are any at all)
+			f := c20ops.NewFixture(c20ops.Variant{Keys: []string{"a", "b", "c"}, Decoded: true})
+			for _, op := range c20ops.Ops() {
+				op := op
+				cs = append(cs, engine.Call{Name: op.Name, Run: func() string { return op.Run(f, nil) }})
+			}
+			return cs
+		}, allPairs, fewProbes, 2, 3)
 }
